@@ -19,6 +19,7 @@ type fnInfo struct {
 	hasDefer bool
 	inRepo   bool
 	isVN     bool
+	harness  bool // defined in an overlaid harness file (zz_*.go)
 	name     string
 	blocks   int
 	rangeOrd map[*ssa.Range]int
@@ -53,6 +54,10 @@ type Interp struct {
 
 	mapSeq int
 
+	par       *parState
+	hotPtrs   map[*Value]bool
+	hotFields map[string]bool
+
 	onDivSet     bool
 	onDivLabel   string
 	onDivFinding string
@@ -83,6 +88,7 @@ func NewInterp(prog *ssa.Program, ex *Explorer) *Interp {
 		fnSeen: map[*ssa.Function]map[int]bool{}, extSeen: map[string]int{}, cutHits: map[string]int{},
 		maxDepth: 400, maxSteps: 4_000_000}
 	it.rm = newRModel(it)
+	it.hotFields = computeHotFields(prog)
 	return it
 }
 
@@ -97,6 +103,8 @@ func (it *Interp) resetPath() {
 	it.sharedWrites = nil
 	it.mapSeq = 0
 	it.onDivSet = false
+	it.par = nil
+	it.hotPtrs = nil
 	it.maxDepth = 400
 	it.rm.resetPath()
 }
@@ -140,6 +148,9 @@ func (it *Interp) infoOf(fn *ssa.Function) *fnInfo {
 		fi.inRepo = strings.HasPrefix(fn.Pkg.Pkg.Path(), repoPath)
 	} else if fn.Parent() != nil && fn.Parent().Pkg != nil {
 		fi.inRepo = strings.HasPrefix(fn.Parent().Pkg.Pkg.Path(), repoPath)
+	}
+	if fn.Pos().IsValid() {
+		fi.harness = strings.HasPrefix(shortFile(it.prog.Fset.Position(fn.Pos()).Filename), "zz_")
 	}
 	fi.isVN = fi.inRepo && fn.Parent() == nil && fn.Signature.Recv() == nil && strings.HasPrefix(fn.Name(), "vn")
 	it.info[fn] = fi
@@ -685,8 +696,23 @@ func (it *Interp) store(p *Value, v Value) {
 	storeRaw(p, v)
 }
 
+func (it *Interp) guarded() bool {
+	if it.par != nil {
+		for _, o := range it.par.owner {
+			if o == it.par.cur {
+				return true
+			}
+		}
+		return false
+	}
+	return it.rm.locksHeld > 0
+}
+
 func (it *Interp) noteWrite(p *Value) {
-	if it.shared[p] && it.rm.locksHeld == 0 {
+	if it.cur != nil && it.cur.info.harness {
+		return // the harness's own bookkeeping is not the library's write
+	}
+	if it.shared[p] && !it.guarded() {
 		w := "?"
 		if it.cur != nil {
 			w = it.where(it.cur)
@@ -696,7 +722,10 @@ func (it *Interp) noteWrite(p *Value) {
 }
 
 func (it *Interp) noteMapWrite(m *Map) {
-	if it.sharedMaps != nil && it.sharedMaps[m] && it.rm.locksHeld == 0 {
+	if it.cur != nil && it.cur.info.harness {
+		return
+	}
+	if it.sharedMaps != nil && it.sharedMaps[m] && !it.guarded() {
 		w := "?"
 		if it.cur != nil {
 			w = it.where(it.cur)
@@ -718,6 +747,9 @@ func (it *Interp) exec(fr *frame, ins ssa.Instruction) {
 			p := x.(*Value)
 			if p == nil {
 				panic(runtimePanic("invalid memory address or nil pointer dereference"))
+			}
+			if it.par != nil && it.hotPtrs[p] {
+				it.parYield()
 			}
 			it.set(fr, ins, copyVal(*p))
 		case token.NOT:
@@ -749,13 +781,20 @@ func (it *Interp) exec(fr *frame, ins ssa.Instruction) {
 		if p == nil {
 			panic(runtimePanic("invalid memory address or nil pointer dereference"))
 		}
+		if it.par != nil && it.hotPtrs[p] {
+			it.parYield()
+		}
 		it.store(p, it.get(fr, ins.Val))
 	case *ssa.FieldAddr:
 		p := it.get(fr, ins.X).(*Value)
 		if p == nil {
 			panic(runtimePanic("invalid memory address or nil pointer dereference"))
 		}
-		it.set(fr, ins, &(*p).(Struct)[ins.Field])
+		fp := &(*p).(Struct)[ins.Field]
+		if it.par != nil && it.shared != nil && it.shared[fp] && it.hotFields[fieldKey(ins)] {
+			it.hotPtrs[fp] = true
+		}
+		it.set(fr, ins, fp)
 	case *ssa.Field:
 		it.set(fr, ins, copyVal(it.get(fr, ins.X).(Struct)[ins.Field]))
 	case *ssa.IndexAddr:
